@@ -668,7 +668,13 @@ def run(ctx):
     lim_f, lim_g = (90, 30) if quick else (5000, 2500)
     chosen_f, uniq_f, shapes_f = pick_schedules(ctx, file_sched, lim_f)
     # the fault schedule that distinguishes the D_RenameAfterFailedStep mutant from the code must be among the replayed ones
-    if d6_steps and not any(set(st["fails"]) & {"open", "write", "sync"} == d6_steps for s in chosen_f for st in s["steps"] if st["op"] == "save"):
+    def has_d6(s):
+        return any(set(st["fails"]) & {"open", "write", "sync"} == d6_steps for st in s["steps"] if st["op"] == "save")
+    if d6_steps and not any(has_d6(s) for s in chosen_f):
+        # TLC's shortest counterexample is one of several (parallel BFS): take a schedule with exactly that fault combination in
+        extra = [s for s in file_sched if has_d6(s)]
+        chosen_f += extra[:2]
+    if d6_steps and not any(has_d6(s) for s in chosen_f):
         raise vlib.Infra("the mutant counterexample's fault schedule %r is not among the exported schedules" % sorted(d6_steps))
     chosen_g, uniq_g, shapes_g = pick_schedules(ctx, gen_sched, lim_g)
     scen = [file_scenario(s, False) for s in chosen_f]
